@@ -122,6 +122,9 @@ type certSpec struct {
 	nbf    time.Time
 	naf    time.Time
 	eku    int
+	// firstCN: when set the subject carries TWO commonName attributes, this one first and cn last.  Go (and
+	// with it the chain and the gateway's TLS layer) reads the last one; the certificate is cn's.
+	firstCN string
 }
 
 // makeCert issues a self-signed certificate exactly like the akash client does (template of
@@ -141,6 +144,11 @@ func makeCert(sp certSpec, key crypto.Signer) (der []byte, cert *x509.Certificat
 		KeyUsage:              x509.KeyUsageDataEncipherment | x509.KeyUsageKeyEncipherment,
 		ExtKeyUsage:           ekuList(sp.eku),
 		BasicConstraintsValid: true,
+	}
+	if sp.firstCN != "" {
+		cnOID := asn1.ObjectIdentifier{2, 5, 4, 3}
+		tmpl.Subject = pkix.Name{ExtraNames: []pkix.AttributeTypeAndValue{{Type: cnOID, Value: sp.firstCN}, {Type: cnOID, Value: sp.cn},
+			{Type: authVersionOID, Value: "v0.0.1"}}}
 	}
 	der, err := x509.CreateCertificate(rand.Reader, &tmpl, &tmpl, key.Public(), key)
 	if err != nil {
